@@ -50,10 +50,11 @@ class Sim:
         env = self.env
         env.activate()
         kind = ev[0]
+        self.before = [(c["conn"].sock.closed, c["last_io"], c.get("busy_at"), c["opened"]) for c in self.conns]
         if kind == "connect":
             c = env.connect(pump=False)
             self.conns.append(dict(conn=c, sent=0, last_io=self.W.now, mark=(0, 0), opened=self.W.now))
-        elif kind in ("partial", "complete", "reads", "stalls"):
+        elif kind in ("partial", "complete", "reads", "stalls", "trickle"):
             if ev[1] >= len(self.conns):
                 return False
             c = self.conns[ev[1]]
@@ -78,6 +79,11 @@ class Sim:
                 if sock.window == 0:
                     return False
                 sock.window = 0
+            elif kind == "trickle":
+                # a slow but steady reader: room for a few more bytes
+                if sock.window is None:
+                    return False
+                sock.client_drain(16)
         elif kind == "finish":
             if not env.disp.queue:
                 return False
@@ -119,6 +125,12 @@ class Sim:
             if sock.closed:
                 if c.get("busy_at") == now and ev[0] == "tick":
                     self.viol.append(("busy-connection-closed", f"connection {i} closed while its request was in progress"))
+                if i < len(self.before) and not self.before[i][0]:
+                    # closed by the server during this step: it must have been idle for channel_timeout
+                    was_closed, last_io, busy_at, opened = self.before[i]
+                    active = max(last_io, busy_at or 0, opened)  # as of the beginning of this step
+                    if now - active < cfg["timeout"]:
+                        self.viol.append(("active-connection-reaped", f"connection {i} closed by the server although it moved data / was accepted only {now - active:.0f}s ago (channel_timeout={cfg['timeout']})"))
                 continue
             idle_since = max(c["last_io"], c.get("busy_at", 0), c["opened"])
             if now - idle_since > cfg["timeout"] + slack:
@@ -155,7 +167,7 @@ class Sim:
 def alphabet(cfg, nconn):
     evs = [("connect",)]
     for i in range(nconn):
-        evs += [("partial", i), ("complete", i), ("reads", i), ("stalls", i)]
+        evs += [("partial", i), ("complete", i), ("reads", i), ("stalls", i), ("trickle", i)]
     evs.append(("finish",))
     for d in sorted({1, cfg["cleanup"], cfg["timeout"], cfg["timeout"] + 1}):
         evs.append(("tick", d))
